@@ -111,7 +111,7 @@ theorem saveSubBlock_storedMono : ∀ (fuel : Nat) (s : Node.State) (id : Nat), 
       · exact StoredMono.refl st
       · rename_i ob _
         split
-        · exact saveBlock_storedMono st ob
+        · exact StoredMono.trans (saveBlock_storedMono st ob) (StoredMono.of_eq (orphanDelete_headers _ _))
         · exact StoredMono.trans (saveBlock_storedMono st ob) (saveSubBlock_storedMono fuel _ o)
 
 /-- completeness, storing: a block that passes `validBlock` with its parent stored is stored by
